@@ -139,6 +139,7 @@ struct Gen<'l> {
     imported: Vec<String>,
     spread_done: bool,
     self_new_budget: u32,
+    mixed: bool, // argument lists mix all four forms freely
 }
 
 #[derive(Clone, Copy, PartialEq)]
@@ -351,11 +352,45 @@ impl<'l> Gen<'l> {
                 omitted = true;
                 continue;
             }
+            if !self.closed && !self.insts.is_empty() && self.r.chance(1, 14) {
+                // inferred argument
+                args.push(self.r.pick(&self.insts).clone());
+                continue;
+            }
             let e = self.arg_expr(depth);
             if self.r.chance(1, 8) {
                 args.push(format!("\"{i}\": {e}"));
             } else {
                 args.push(format!("{i}: {e}"));
+            }
+        }
+        let (num, den) = if self.mixed { (1, 2) } else { (1, 9) };
+        if !self.closed && depth > 0 && self.r.chance(num, den * 2) {
+            // a named argument the component does not import: its expression is evaluated all the same
+            let n = self.id("k");
+            let e = self.arg_expr(depth);
+            args.push(format!("{n}: {e}"));
+        }
+        // the four argument forms in every order: shuffle, then put spreads, inferred arguments and
+        // NON-final fills at random positions, so that named arguments (with nested `new`) follow them
+        for i in (1..args.len()).rev() {
+            let j = self.r.below(i as u64 + 1) as usize;
+            args.swap(i, j);
+        }
+        if !self.closed {
+            if !self.insts.is_empty() && self.r.chance(num, den) {
+                let pos = self.r.below(args.len() as u64 + 1) as usize;
+                let s = self.r.pick(&self.insts).clone();
+                args.insert(pos, format!("...{s}"));
+            }
+            if !self.insts.is_empty() && self.r.chance(num, den * 2) {
+                let pos = self.r.below(args.len() as u64 + 1) as usize;
+                let s = self.r.pick(&self.insts).clone();
+                args.insert(pos, s);
+            }
+            if !args.is_empty() && self.r.chance(num, den * 2) {
+                let pos = self.r.below(args.len() as u64) as usize;
+                args.insert(pos, "...".to_string());
             }
         }
         if omitted || (!self.closed && self.r.chance(1, 10)) {
@@ -498,6 +533,7 @@ fn gen_doc(seed: u64, lib: &[Pkg]) -> String {
     let own_name = own.split('@').next().unwrap().to_string();
     let closed = r.chance(1, 6);
     let budget = if r.chance(1, 3) { 1 } else { 0 };
+    let mixed = r.chance(1, 4);
     let mut g = Gen {
         r,
         lib,
@@ -511,6 +547,7 @@ fn gen_doc(seed: u64, lib: &[Pkg]) -> String {
         imported: vec![],
         spread_done: false,
         self_new_budget: budget,
+        mixed,
     };
     g.document()
 }
@@ -551,6 +588,14 @@ fn edge_docs() -> Vec<(&'static str, String)> {
         ("missing-export", "package test:own;\ninterface i { use lib:aaa/nope.{t}; use lib:ccc/api.{t}; }\n"),
         ("postfix-only", "package test:own;\nlet a = new comp:leaf {};\nlet f = a.run;\nexport f as g;\n"),
         ("spread-inferred", "package test:own;\nlet dep = new comp:leaf {};\nlet a = new comp:one { dep };\nlet b = new comp:one@0.1.0 { ...a, ... };\nexport a as out;\n"),
+        ("spread-then-named-new", "package test:own;\nlet s = new comp:leaf {};\nlet a = new comp:two@1.0.0 { ...s, a: new comp:leaf@1.0.0 {}, b: s };\n"),
+        ("spread-then-named-paren-new", "package test:own;\nlet s = new comp:leaf {};\nexport new comp:one { ...s, \"dep\": ((new comp:one@0.1.0 { dep: s })) } as e;\n"),
+        ("fill-then-named-new", "package test:own;\nlet a = new comp:two@2.0.0 { ..., a: new comp:leaf@1.0.0 {}, b: new comp:leaf {} };\n"),
+        ("inferred-then-named-new", "package test:own;\nlet b = new comp:leaf {};\nlet a = new comp:two@2.0.0 { b, a: (new comp:leaf@1.0.0 {}) };\nexport a as out;\n"),
+        ("all-four-forms", "package test:own;\nlet s = new comp:leaf {};\nlet b = new comp:leaf {};\nlet a = new comp:two@2.0.0 { b, ...s, ..., a: new comp:one { ...s, dep: new comp:leaf@1.0.0 {} }, ... };\n"),
+        ("spread-then-self-new", "package test:own;\nlet s = new comp:leaf {};\nlet a = new comp:one { ...s, dep: (new test:own {}) };\n"),
+        ("fill-then-self-new", "package test:own@1.2.3;\nlet a = new comp:two@1.0.0 { a: new comp:leaf {}, ..., b: new test:own { ... } };\n"),
+        ("inferred-spread-fill-then-self-new", "package comp:one;\nlet s = new comp:leaf {};\nexport new comp:two@2.0.0 { s, ...s, ..., a: new comp:two@1.0.0 { ...s, b: ((new comp:one@0.1.0 {})) } } as e;\n"),
         ("repeat-same-key", "package test:own;\nimport x: lib:aaa/api;\nworld w { import lib:aaa/api; export lib:aaa/other; include lib:aaa/plain; }\nlet a = new comp:leaf {};\nlet b = new comp:leaf {};\n"),
     ];
     v.into_iter().map(|(a, b)| (a, b.to_string())).collect()
